@@ -136,6 +136,7 @@ func (c20) Generate(env *kernel.Env, r *kernel.Rand, index int) any {
 		focus = r.Range(1, 4)
 	}
 	k := 0
+	lastName, lastFormat := "", 0
 	for i := 0; i < n; i++ {
 		m := r.Range(1, 3)
 		if p.Entry == "saveoutputs" {
@@ -149,7 +150,13 @@ func (c20) Generate(env *kernel.Env, r *kernel.Rand, index int) any {
 			}
 			// file names are arbitrary: spaces, dashes and non-ASCII letters are legal
 			stem := kernel.Pick(r, []string{"out", "out", "out", "my out", "gen api", "été", "a-b", "x y z"})
-			reqs = append(reqs, request{Format: f, File: fmt.Sprintf("%s%d%s", stem, k, ext(f))})
+			name := fmt.Sprintf("%s%d", stem, k)
+			if lastName != "" && r.Chance(1, 6) {
+				// two outputs whose paths differ by letter case only are two files
+				f, name = lastFormat, strings.ToUpper(lastName)
+			}
+			reqs = append(reqs, request{Format: f, File: name + ext(f)})
+			lastName, lastFormat = name, f
 			k++
 		}
 		p.Callers = append(p.Callers, reqs)
